@@ -16,6 +16,7 @@ package parser
 
 import (
 	"errors"
+	"strings"
 
 	"github.com/datastax/go-cassandra-native-protocol/message"
 )
@@ -45,6 +46,59 @@ func (l *lexer) enter() error {
 
 func (l *lexer) leave() {
 	l.depth--
+}
+
+// stripComments replaces CQL comments (`-- ...`, `// ...` and `/* ... */`) with spaces, leaving string literals and
+// quoted identifiers untouched. The lexer has no notion of comments, so without this a statement containing one is not
+// recognized for what it is (e.g. a `SELECT` on a system table is forwarded instead of being handled by the proxy).
+func stripComments(query string) string {
+	if !strings.Contains(query, "--") && !strings.Contains(query, "/") {
+		return query
+	}
+	b := []byte(query)
+	n := len(b)
+	for i := 0; i < n; {
+		c := b[i]
+		switch {
+		case c == '\'' || c == '"': // String literal or quoted identifier, a doubled quote is an escaped quote
+			i++
+			for i < n {
+				if b[i] == c {
+					if i+1 < n && b[i+1] == c {
+						i += 2
+						continue
+					}
+					break
+				}
+				i++
+			}
+			i++
+		case c == '$' && i+1 < n && b[i+1] == '$': // Dollar-quoted string literal
+			i += 2
+			for i+1 < n && !(b[i] == '$' && b[i+1] == '$') {
+				i++
+			}
+			i += 2
+		case (c == '-' && i+1 < n && b[i+1] == '-') || (c == '/' && i+1 < n && b[i+1] == '/'): // Line comment
+			for i < n && b[i] != '\n' {
+				b[i] = ' '
+				i++
+			}
+		case c == '/' && i+1 < n && b[i+1] == '*': // Block comment
+			end := n
+			if idx := strings.Index(query[i+2:], "*/"); idx >= 0 {
+				end = i + 2 + idx + 2
+			}
+			for ; i < end; i++ {
+				if b[i] != '\n' {
+					b[i] = ' '
+				}
+			}
+		default:
+			i++
+		}
+	}
+	return string(b)
 }
 
 type ValueLookupFunc func(name string) (value message.Column, err error)
